@@ -456,6 +456,57 @@ c11_eq_std_val! {c11_eq_std_val_n2, 2}
 c11_eq_std_val! {c11_eq_std_val_n3, 3}
 
 // ---------------------------------------------------------------------------
+// the mapper given as a function EXPRESSION (not a closure literal, not a bare path): evaluated once, like the
+// argument of `<[T; N]>::map` / `core::array::from_fn`, and (for `map!`) after the array expression
+
+fn pick(c: &core::cell::Cell<u8>, k: u8) -> impl Fn(u8) -> u16 + Copy {
+    c.set(c.get() + 1);
+    let n = c.get();
+    move |x: u8| (x as u16) * 3 + (k as u16) + (n as u16) * 1000
+}
+fn pick_idx(c: &core::cell::Cell<u8>, k: u8) -> impl Fn(usize) -> u16 + Copy {
+    c.set(c.get() + 1);
+    let n = c.get();
+    move |i: usize| (i as u16) * 5 + (k as u16) + (n as u16) * 1000
+}
+
+harness! {
+    /// kind=bounded tier=quick bound="N in {0, 3}: array::map!, map_!, from_fn!, from_fn_! with the mapper given as a function-valued EXPRESSION with a side effect (an evaluation counter that also changes the function returned): evaluated exactly once and the result equals the std call; for map! the array expression is evaluated before the mapper expression"
+    #[kani::unwind(6)]
+    fn c11_mapper_expression_evaluated_once(s) {
+        use core::cell::Cell;
+        let k = s.u8() % 7;
+        let input: [u8; 3] = [s.u8(), s.u8(), s.u8()];
+        let c = Cell::new(0u8);
+        let a: [u16; 3] = konst::array::map!(input, pick(&c, k));
+        chk!(s, c.get() == 1, "C11.map.mapper_expression_evaluated_once");
+        let e = input.map(pick(&Cell::new(0), k));
+        chk!(s, a[0] == e[0] && a[1] == e[1] && a[2] == e[2], "C11.map.mapper_expression_eq_std_map");
+        c.set(0);
+        let a: [u16; 3] = konst::array::map_!(input, pick(&c, k));
+        chk!(s, c.get() == 1 && a[0] == e[0] && a[1] == e[1] && a[2] == e[2], "C11.map_.mapper_expression_evaluated_once");
+        c.set(0);
+        let a: [u16; 3] = konst::array::from_fn!(pick_idx(&c, k));
+        let e2: [u16; 3] = core::array::from_fn(pick_idx(&Cell::new(0), k));
+        chk!(s, c.get() == 1 && a[0] == e2[0] && a[1] == e2[1] && a[2] == e2[2], "C11.from_fn.mapper_expression_evaluated_once");
+        c.set(0);
+        let a: [u16; 3] = konst::array::from_fn_!(pick_idx(&c, k));
+        chk!(s, c.get() == 1 && a[0] == e2[0] && a[1] == e2[1] && a[2] == e2[2], "C11.from_fn_.mapper_expression_evaluated_once");
+        // length 0: std still evaluates the mapper expression once
+        c.set(0);
+        let z: [u8; 0] = [];
+        let _a0: [u16; 0] = konst::array::map!(z, pick(&c, k));
+        chk!(s, c.get() == 1, "C11.map.mapper_expression_evaluated_once_len0");
+        // order: array expression first, then the mapper expression (as in `ARRAY.map(F)`)
+        let order = Cell::new(0u8);
+        let arr_seen = Cell::new(0u8);
+        let _ao: [u16; 3] = konst::array::map!({ order.set(order.get() + 1); arr_seen.set(order.get()); input }, { order.set(order.get() + 1); pick(&c, k) });
+        chk!(s, arr_seen.get() == 1 && order.get() == 2, "C11.map.array_expression_evaluated_before_mapper_expression");
+        cov!(s, k == 3 && input[2] == 200, "C11.cover.mapper_expression_values");
+    }
+}
+
+// ---------------------------------------------------------------------------
 // ArrayBuilder<u8, N>: reachable states are new() + k <= N pushes
 
 fn slice_is(sl: &[u8], model: &[u8; 4], k: usize) -> bool {
